@@ -129,6 +129,7 @@ func init() {
 			{"PG", "termination skeleton: every loop of the package has an integer ranking variable (a phi at the loop head) that every way round the loop strictly increases — by a positive constant, by a proved guard, or by the offset of a callee that returns past its start offset on every return feasible on that back edge (verdict sets), where 'past' may come from the byte argument: the byte at the returned index cannot be the byte seen at the call; callee progress that is not provable is reported as assumed with callee and site; upper bounds are the loop conditions and rule O1", rulePG},
 			{"G", "every index and slice expression outside init is discharged by a frozen proof rule: G2 index range (intervals, masks, enum guards) within a fixed array length; G3 dominated by a linear guard on the same SSA values (i < len(buf), i+1 < len(buf), N < len(arr) with no intervening write); the trusted accessor GetPField; named exceptions", ruleG},
 			{"P2", "PField.Set/Extend argument discipline: every end argument is provably <= len(buf); start <= end is proved or the start is a saved past index (assumed by index monotonicity); every store to a saved-index state field (soffs, pstart, pend, vstart, vend, msg.offs, PField.Offs) stores 0 or a value provably <= len(buf) - the inductive invariant behind the saved-index axiom of G/O1", ruleP2},
+			{"BV4", "fields are dereferenced against the buffer they index (shared with C11-BV): no value loaded from PSIPMsg.RawMsg is passed to a package function, so PField.Get never slices the shorter re-based view with Buf-relative offsets", func(c *Ctx) { ruleBV(c, "BV4") }},
 			{"P1", "explicit panic calls outside init are confined to the two documented PField assertions", ruleP1},
 		},
 		Assumptions: []string{"offs >= 0 and resume-with-returned-offset API preconditions", "callers do not write through []byte names returned from package tables"},
